@@ -88,7 +88,10 @@ def histories(draw, max_len=12):
 
 def fresh_reply(text, case):
     disp, dm, registry, cfg = refmodel.make_dispatcher(case["version"], case["jsonclass"], case["mode"])
-    return disp._marshaled_dispatch(text, dm)
+    try:
+        return disp._marshaled_dispatch(text, dm)
+    except Exception as ex:
+        fail("C02/dispatcher-raised:%s" % type(ex).__name__, "a fresh dispatcher raised %s: %s for %r" % (type(ex).__name__, str(ex)[:200], text[:200]))
 
 
 def same_reply(a, b):
